@@ -435,7 +435,21 @@ func (m *Model) applyLoads(loads []LoadCall, hooks []CalcCall) []expEvent {
 		sort.Ints(keys)
 		for _, k := range keys {
 			if v, ok := lc.Out[k]; ok && lc.Err == "" {
-				evs = append(evs, m.write(k, v, hooksFor(hooks, k), otter.CauseReplacement)...)
+				wr := m.write(k, v, hooksFor(hooks, k), otter.CauseReplacement)
+				// an earlier loader call of this very operation may already have removed the entry (optional removal):
+				// then its report carries that call's cause
+				for i := 0; i < len(m.optional); i++ {
+					if m.optional[i].key == k {
+						for j := range wr {
+							if wr[j].key == k && wr[j].val == m.optional[i].val {
+								wr[j].causes = append(wr[j].causes, m.optional[i].causes...)
+							}
+						}
+						m.optional = append(m.optional[:i], m.optional[i+1:]...)
+						i--
+					}
+				}
+				evs = append(evs, wr...)
 			} else if lc.Kind == "reload" || lc.Kind == "bulkreload" {
 				// not found on reload: the entry is removed
 				evs = append(evs, m.remove(k, otter.CauseInvalidation)...)
